@@ -106,11 +106,11 @@ func TestVerif_C07_Reader(t *testing.T) {
 	ctx := context.Background()
 	unknown := c07Sig(99, 99)
 	type query struct {
-		Counts         [c07Epochs]int `json:"counts"`
-		Loaded         int            `json:"loaded_mask"`
-		Limit          int            `json:"limit"`
-		Before, Until  int            `json:"-"`
-		BeforeS, UntilS string        `json:"before,omitempty"`
+		Counts          [c07Epochs]int `json:"counts"`
+		Loaded          int            `json:"loaded_mask"`
+		Limit           int            `json:"limit"`
+		Before, Until   int            `json:"-"`
+		BeforeS, UntilS string         `json:"before,omitempty"`
 	}
 	caseIdx := int64(0)
 	maxCount := c07MaxCount
